@@ -1,6 +1,8 @@
 (* C04 - Every epoch range can be audited against the published root hashes. *)
 From Coq Require Import List Bool NArith.
 From Akd Require Import NodeLabel Hashing Tree Directory Verify DirFacts.
+From Akd Require Import Spec SpecFacts DirRefine AuditComplete AuditDir.
+From Akd Require NodeLabelFacts.
 Import ListNotations.
 Open Scope N_scope.
 
@@ -20,3 +22,60 @@ Theorem C04_lengths_checked : forall cfg pf hashes p,
   length hashes = S (length (ap_epochs p)) /\ length (ap_proofs p) = length (ap_epochs p).
 Proof. exact audit_verify_lengths. Qed.
 Print Assumptions C04_lengths_checked.
+
+(* ------------------------------------------------------------------ completeness *)
+
+(* for every valid range the server answers with a proof *)
+Theorem C04_proof_available : forall cfg st s e, s < e -> e <= d_epoch st -> exists p, audit cfg st s e = DOk p.
+Proof. exact audit_available. Qed.
+Print Assumptions C04_proof_available.
+
+(* tree level: for ANY canonical tree (what the directory's tree always is, C01) and any epoch s
+   below its newest leaf, the single-epoch proof which the server's walk over the LATEST tree yields
+   is accepted by the auditor against the hashes of the trees as of s and s+1 (the specification
+   tries over the leaves inserted up to s, resp. s+1) - every hash configuration, every history *)
+Theorem C04_single_epoch_proof_verifies : forall cfg, canonical (c_empty_label cfg) = false ->
+  forall T s, canon_root T -> s < t_last_epoch T ->
+  let w := ao_walk cfg 300 true T s (s + 1) in
+  verify_consecutive cfg true (snd w, fst w) (spec_root_hash cfg (as_of s T)) (spec_root_hash cfg (as_of (s + 1) T)) (s + 1) = true.
+Proof. exact audit_step_complete. Qed.
+Print Assumptions C04_single_epoch_proof_verifies.
+
+(* directory level: after ANY sequence of publish requests, every proof that [audit] returns is
+   accepted by [audit_verify] against the hashes of the epochs s..e ... *)
+Theorem C04_every_range_audits : forall cfg ck (vrf_label : bytes -> bool -> N -> option nlabel),
+  canonical (c_empty_label cfg) = false ->
+  (forall l f v nl, vrf_label l f v = Some nl -> NodeLabelFacts.WF nl /\ canonical nl = true /\ llen nl = 256) ->
+  (forall l f v l' f' v' nl, vrf_label l f v = Some nl -> vrf_label l' f' v' = Some nl -> l = l' /\ f = f' /\ v = v') ->
+  forall reqs s e p,
+  let st := run_publishes cfg ck vrf_label dir_new reqs in
+  audit cfg st s e = DOk p ->
+  audit_verify_gen cfg true (map (hash_as_of cfg st) (Nrange' s (S (N.to_nat (e - s))))) p = true.
+Proof. exact audit_reachable. Qed.
+Print Assumptions C04_every_range_audits.
+
+(* ... and those hashes are the ones the publishes returned: the epoch hash served when the
+   directory stood at an earlier point of its history is the hash of that epoch read off any later
+   state *)
+Theorem C04_hashes_are_the_published_ones : forall cfg ck (vrf_label : bytes -> bool -> N -> option nlabel),
+  canonical (c_empty_label cfg) = false ->
+  (forall l f v nl, vrf_label l f v = Some nl -> NodeLabelFacts.WF nl /\ canonical nl = true /\ llen nl = 256) ->
+  (forall l f v l' f' v' nl, vrf_label l f v = Some nl -> vrf_label l' f' v' = Some nl -> l = l' /\ f = f' /\ v = v') ->
+  forall earlier later,
+  let st1 := run_publishes cfg ck vrf_label dir_new earlier in
+  let st := run_publishes cfg ck vrf_label dir_new (earlier ++ later) in
+  d_epoch st1 <= d_epoch st /\ epoch_hash cfg st1 = (d_epoch st1, hash_as_of cfg st (d_epoch st1)).
+Proof. exact published_hashes. Qed.
+Print Assumptions C04_hashes_are_the_published_ones.
+
+(* the premises are met by a concrete tree (two leaves, inserted at epochs 1 and 2) *)
+Definition ex_T : tree :=
+  Node nl_root 2 1 (Some (Leaf (nl_of_bits (repeat false 256)) (repeat 7 32) 1))
+                   (Some (Leaf (nl_of_bits (true :: repeat false 255)) (repeat 9 32) 2)).
+Example C04_premises_satisfiable : canon_root ex_T /\ 1 < t_last_epoch ex_T.
+Proof.
+  split; [|reflexivity]. cbn [canon_root ex_T]. split; [reflexivity|].
+  split; [split; [vm_compute; reflexivity | split; [vm_compute; reflexivity | exact I]]|].
+  split; [split; [vm_compute; reflexivity | split; [vm_compute; reflexivity | exact I]]|].
+  split; reflexivity.
+Qed.
